@@ -3,7 +3,8 @@ Helper lemmas for Props/C16 (nothing panics or hangs), part 2: the environment s
 (alias → flatten → tag reformat → tag copy → string cast, regenerated from sources/env/env.go as
 `Facts.chainEnv`) never reaches a `.panic` of the model on supported field lists (`SupportedCfg`,
 `envValue_noPanic`), and every ingredient of `SupportedCfg` is necessary (the `envValue_panics_*`
-counterexamples evaluate the model to each panic on a field list that violates just that ingredient).
+counterexamples evaluate the model to a panic on a field list that violates just that ingredient; both
+remaining ones are artefacts of the untyped `nilv`, not panics of the code).
 The two shapes whose panics were repaired in the library (P05: empty `dialsenv` tag; P02: `Elem()` of a
 type without element type) now evaluate to errors and lie inside `SupportedCfg` (`envValue_*_is_error`,
 `repaired_now_supported`).
@@ -14,13 +15,17 @@ Where the model's panics live along the chain (and what excludes each under `Sup
                                                                outputs (`All2` against the layer's output fields)
   * flatten_mangler.go populateStruct: `vs[inputIndex]`       — the leaf types of flattenStruct (`leafTys`) are
                                                                the ones populate walks (`populate_np`, any fuel)
-  * flatten_mangler.go populateStruct: `originalVal.Set(ptr)` — every nested struct behind a pointer (`okField`)
+  * flatten_mangler.go populateStruct: `originalVal.Set(ptr)` — no panic any more since the repair of P02 (a struct held
+                                                               by value receives the rebuilt struct itself; the
+                                                               model's `populate` follows: `envValue_value_struct_rebuilt`)
   * string_casting_mangler.go: `sf.Type.Elem()`              — an error since the repair of P02 (guard `hasElemTy`):
                                                                a leaf without element type is allowed (`leafTyOk`)
   * string_casting_mangler.go: `.(*string)`                   — the values handed over are *string or nil (`IsEnvVal`)
   * transformer.go maybeRecursivelyUnmangle: v.Elem()/Index   — values have the shape of their types (`LeafV` after
                                                                string cast / tag copy / tag reformat: a slice of
-                                                               structs is nil or empty; `Shaped` after flatten)
+                                                               structs is nil or empty; `Shaped` after flatten:
+                                                               every nested struct behind a pointer, `okField` —
+                                                               an unset by-value struct is `nilv` in the model)
 
 Proof plan: `unmangleLayer_spec` / `layerBody_spec` reduce one layer of ReverseTranslate to its per-field
 body under a pointwise invariant `P` on (output field, value) and deliver a pointwise `Q` on (input field,
@@ -599,7 +604,9 @@ def okUnder : Ty → Bool
   | .struct fs => okFields fs
   | _ => true
 /-- the type of a field as the flatten mangler meets it: (pointers to) a struct only behind a pointer
-(`populate`'s remaining panic `reflect.Set: *struct into struct`); any other type is fine (scalar,
+(since the repair of P02 `populate` no longer panics on a struct held by value, but the model's `nilv`
+for an UNSET by-value struct does not survive the recursing alias mangler when a sibling is set — the
+`nilv` artefact, `envValue_panics_value_struct_sibling`); any other type is fine (scalar,
 duration, text unmarshaler, slice, map, set, array: since the repair of P02 the string-cast mangler
 returns an error for a type without `Elem()`), but it must not be an array of structs (no value of it
 survives the recursing manglers: the `nilv` artefact) -/
@@ -973,10 +980,9 @@ theorem populate_np : ∀ (fuel : Nat) (t : Ty), okField t = true → PopNP fuel
         obtain ⟨rfl, new, hfv, hnew⟩ := hres fvs r a hp
         have hfv' : fvs = new := by simpa using hfv
         subst hfv'
-        have hd' : (ptrDepth t == 0) = false := by simpa using hd
         cases a with
         | true =>
-          simp only [if_true, hd', Bool.false_eq_true, if_false]
+          simp only [if_true]
           refine ⟨noPanic_ok _, fun v r' a' h => ?_⟩
           cases h
           exact ⟨rfl, Shaped_wrap hs hd _ hnew⟩
@@ -1313,9 +1319,13 @@ theorem translate_cons_ok {fuel : Nat} {m : Mangler} {ms : List Mangler} {fs tfs
 /-- The field lists on which the environment source's model cannot panic: `okTop` on every (original,
 Pointerify-output) field type — as the flatten mangler walks a pointer type (through pointers and the
 fields of structs):
-  * every nested struct sits behind a pointer — else `reflect.Set: *struct into struct` in the model's
-    `populate` (populateStruct `originalVal.Set(ptr)`; the model keeps this panic, see
-    `envValue_panics_value_struct`);
+  * every nested struct sits behind a pointer.  Since the repair of P02 (`populate` stores the rebuilt struct
+    itself in a struct held by value) a by-value struct whose leaves are set is rebuilt
+    (`envValue_value_struct_rebuilt`: the former counterexample is now a value).  The shape stays excluded
+    because of a MODEL artefact: `populate` leaves an unset by-value struct as `nilv` (the model has no zero
+    struct), and when a sibling field is set the recursing alias mangler meets that `nilv` at a struct type:
+    `ReverseTranslate of a non-struct` (`envValue_panics_value_struct_sibling`); the real code passes the
+    zero struct through;
   * no nested field is an array of structs as a bare leaf — else `unexpected value kind in recursive
     unmangle`: an unset array reaches the recursing manglers as nil (the model's `nilv` artefact, see
     `envValue_panics_array_of_structs`).
@@ -1486,8 +1496,7 @@ def populateK : Nat → Ty → List Val → Outcome (Val × List Val × Bool)
     | .struct ifs =>
       match fieldsK (populateK fuel) (ifs.toList.length + 1) ifs.toList vals [] false with
       | .ok (fvs, vals', any) =>
-        if any then (if ptrDepth t == 0 then .panic "reflect.Set: *struct into struct"
-          else .ok (wrapPtrs (ptrDepth t) (.struct fvs), vals', true))
+        if any then .ok (wrapPtrs (ptrDepth t) (.struct fvs), vals', true)
         else .ok (.nilv, vals', false)
       | .err c => .err c
       | .panic c => .panic c
@@ -1598,6 +1607,12 @@ def cxValueStruct : List FT :=
   [(⟨"P", [], false⟩, .ptr (.struct (Fields.ofList
     [(⟨"X", [], false⟩, .struct (Fields.ofList [(⟨"A", [], false⟩, .ptr cxInt)]))])))]
 
+/-- `P *struct{ B *int; X struct{ A *int } }`: a struct nested by value next to a sibling field -/
+def cxValueStructSibling : List FT :=
+  [(⟨"P", [], false⟩, .ptr (.struct (Fields.ofList
+    [(⟨"B", [], false⟩, .ptr cxInt),
+     (⟨"X", [], false⟩, .struct (Fields.ofList [(⟨"A", [], false⟩, .ptr cxInt)]))])))]
+
 /-- `P **struct{ A int }`: a scalar field Pointerify did not wrap (it stops at the user's pointer); an
 error since the repair of P02, and supported -/
 def cxUnwrappedLeaf : List FT :=
@@ -1615,9 +1630,36 @@ def cxArrayOfStructs : List FT :=
     [(⟨"R", [], false⟩, .array 2 (.struct (Fields.ofList [(⟨"A", [], false⟩, .ptr cxInt)])))]))))]
 
 set_option maxRecDepth 100000 in
-theorem envValue_panics_value_struct :
+/-- since the repair of P02 (`populate` stores the rebuilt struct itself in a struct held by value; before:
+`.panic "reflect.Set: *struct into struct"`) the by-value struct `X` is rebuilt -/
+theorem envValue_value_struct_rebuilt :
     envValue 64 (envChain 64 cxToks) "" cxValueStruct (fun s => if s = "P_X_A" then some "1" else none) =
-      .panic "reflect.Set: *struct into struct" := by
+      .ok [.ptr (.struct [.struct [.ptr (.i 1)]])] := by
+  rw [envChainK_eq]
+  rfl
+
+set_option maxRecDepth 100000 in
+/-- … and with nothing set the whole value stays unset -/
+theorem envValue_value_struct_unset :
+    envValue 64 (envChain 64 cxToks) "" cxValueStruct (fun _ => none) = .ok [.nilv] := by
+  rw [envChainK_eq]
+  rfl
+
+set_option maxRecDepth 100000 in
+/-- the by-value struct next to a sibling: with the struct's own leaf set both are rebuilt … -/
+theorem envValue_value_struct_sibling_rebuilt :
+    envValue 64 (envChain 64 cxToks) "" cxValueStructSibling (fun s => if s = "P_X_A" then some "1" else none) =
+      .ok [.ptr (.struct [.nilv, .struct [.ptr (.i 1)]])] := by
+  rw [envChainK_eq]
+  rfl
+
+set_option maxRecDepth 100000 in
+/-- … but with only the SIBLING set the unset by-value struct is `nilv` in the model (there is no zero
+struct), which the recursing alias mangler meets at a struct type: a MODEL artefact (the real code
+passes the zero struct through), and the reason why `okField` keeps excluding structs held by value -/
+theorem envValue_panics_value_struct_sibling :
+    envValue 64 (envChain 64 cxToks) "" cxValueStructSibling (fun s => if s = "P_B" then some "1" else none) =
+      .panic "ReverseTranslate of a non-struct" := by
   rw [envChainK_eq]
   apply eq_panic_of_class
   decide
@@ -1657,7 +1699,12 @@ theorem envValue_panics_array_of_structs :
   decide
 
 theorem counterexamples_unsupported :
-    SupportedCfg 64 cxValueStruct = false ∧ SupportedCfg 64 cxArrayOfStructs = false := by
+    SupportedCfg 64 cxValueStructSibling = false ∧ SupportedCfg 64 cxArrayOfStructs = false := by
+  decide
+
+/-- `SupportedCfg` is sufficient, not necessary: the lone by-value struct is outside it although the model
+evaluates to values on it (`envValue_value_struct_rebuilt`, `envValue_value_struct_unset`) -/
+theorem value_struct_unsupported : SupportedCfg 64 cxValueStruct = false := by
   decide
 
 /-- the shapes whose panics were repaired into errors are inside the supported set -/
